@@ -349,4 +349,36 @@ def streamOf {σ β : Type} (step : σ → β × σ) : Nat → σ → List β
 
 def pcgStream (n : Nat) (p : Pcg) : List Nat := streamOf pcgFloat24 n p
 
+/-! ### histories: a sequence of calls on ONE sampler
+
+  The only state a `Sampler` carries from one call to the next is its generator.  A call reaches
+  the generator (draws exactly one number) unless it returns earlier: empty input, the greedy
+  branch, or — in the repaired variant — the "all logits are -Inf" error raised before the draw. -/
+
+/-- does this call draw a random number? -/
+def consumes (o : Ops α) (fix : Bool) (P : Params α) (logits : List α) : Bool :=
+  match logits with
+  | [] => false
+  | _ =>
+    !o.beq P.temp o.zero &&
+    (if fix then
+       (match shiftMax o (topK o P.topK (mkTokens logits)) with
+        | .ok _ => true
+        | .error _ => false)
+     else true)
+
+/-- one call: result and generator state afterwards (`toF n` is the carrier's `n / 2^24`) -/
+def sampleStep (o : Ops α) (toF : Nat → α) (fix : Bool) (P : Params α) (p : Pcg) (logits : List α) :
+    Except Err Nat × Pcg :=
+  if consumes o fix P logits then
+    (Sample o fix P (toF (pcgFloat24 p).1) logits, (pcgFloat24 p).2)
+  else (Sample o fix P (toF 0) logits, p)
+
+/-- the results of a history of calls on one sampler -/
+def sampleHist (o : Ops α) (toF : Nat → α) (fix : Bool) (P : Params α) :
+    Pcg → List (List α) → List (Except Err Nat)
+  | _, [] => []
+  | p, l :: ls =>
+    (sampleStep o toF fix P p l).1 :: sampleHist o toF fix P (sampleStep o toF fix P p l).2 ls
+
 end OllamaVerif.Sampler
